@@ -786,14 +786,14 @@ pub fn parse_strace(log: &str, dir: &Path, initial: FsSim) -> (Vec<Sys>, Vec<Str
                     warnings.push(format!("nested path in memory dir: {rel}"));
                     continue;
                 }
-                let ino = match sim.dir.get(&rel) {
+                let ino = match sim.dir.get(&rel).copied() {
                     Some(i) => {
-                        if flags.contains("O_TRUNC") && !sim.inodes[*i].data.is_empty() {
-                            let s = Sys::Trunc { ino: *i, len: 0 };
+                        if flags.contains("O_TRUNC") && !sim.inodes[i].data.is_empty() {
+                            let s = Sys::Trunc { ino: i, len: 0 };
                             sim.apply(&s);
                             ops.push(s);
                         }
-                        *i
+                        i
                     }
                     None => {
                         if !flags.contains("O_CREAT") {
